@@ -125,7 +125,7 @@ def main(argv=None):
             if len(samples) < 6:
                 samples.append(dict(job=r["job"], **s))
         per_job.append(dict(job=r["job"], paths=r["paths"], feasible=r["feasible"], queries=r["queries"],
-                            solver_s=round(r["solver_s"], 3), tags=len(r["tags"])))
+                            solver_s=round(r["solver_s"], 3), wall_s=round(r.get("wall_s", 0.0), 2), tags=len(r["tags"])))
     inconclusive = []
     if errors:
         inconclusive.append(f"{len(errors)} job(s) crashed: {errors[0]['error'][-400:]}")
@@ -180,6 +180,7 @@ def main(argv=None):
             print(f"note: listed known finding {k.get('id')} was not re-derived in this run")
     wall = time.time() - t0
     nontrivial = tot["feasible"]
+    per_job.sort(key=lambda j: -j.get("wall_s", 0.0))
     ev = dict(
         property_id=pid, tier=a.tier, seed=seed, level=P.get("category", "model_checking"),
         coverage=dict(
@@ -195,7 +196,10 @@ def main(argv=None):
             functions_encoded=sorted(functions.values(), key=lambda f: f["name"]), bounds=P.get("bounds", {}).get(a.tier, P.get("bounds")),
             jobs=len(results), per_job=per_job[:60], paths=tot["paths"], feasible_paths=tot["feasible"], queries=tot["queries"],
             solver_s=round(tot["solver_s"], 2), unknown=tot["unknown"], aborted=tot["aborted"], abort_reasons=abort_reasons,
-            reached_labels=reached, twin_and_xval_replays_ok=tot["xval_ok"], spurious_models=len(spurious),
+            reached_labels=reached, twin_and_xval_replays_ok=tot["xval_ok"],
+            xval_paths_skipped=dict(tie_only_path=sum(r.get("xval_tie_skipped", 0) for r in results.values()),
+                                    over_approximated_function=sum(r.get("xval_uf_skipped", 0) for r in results.values()),
+                                    no_exactly_representable_model=sum(r.get("xval_skipped_no_float_safe_model", 0) for r in results.values())), spurious_models=len(spurious),
             known_findings_rederived=sorted(k for k in kseen if k),
             second_solver=dict(solver="cvc5 (python wheel)", sampled_unsat_queries_rechecked=tot["second_solver_unsat"] + tot["second_solver_sat"] + tot["second_solver_unknown"] + tot["second_solver_error"],
                                agree_unsat=tot["second_solver_unsat"], disagree_sat=tot["second_solver_sat"], no_answer_in_5s=tot["second_solver_unknown"], export_error=tot["second_solver_error"]), inconclusive=inconclusive, stubs=sorted(stubs),
